@@ -121,9 +121,11 @@ def _run_path(eng, fi, c, case, rep, suffix):
         outcome = ('normal', r.v)
     except PyRaise as ex:
         outcome = ('raise', ex)
+    final_locals = dict(fr.locals)
     eng.frame = Frame(None, fi.module, {})
     old = VOld(env, eng.pre_state)
-    env2 = dict(env)
+    env2 = {k: v for k, v in final_locals.items() if not k.startswith('$')}     # final values of the locals ...
+    env2.update(env)                                                          # ... parameters: their entry values
     env2['old'] = old
     hyps = list(eng.facts) + list(eng.pc)
     if outcome[0] == 'normal':
